@@ -8,7 +8,8 @@ selector predicates as the row-wise fill specification (spec/binspec.selectors).
 children's `_numpy` contract (= fold of fill over the rows with those weights), L-gate (weight 0 is a
 no-op) and C02, this is row-wise equality (meta step T-ROWS, an induction on the number of rows).
 Also: every child slot receives exactly one call, entries += sum(weights), inputs unchanged.
-np.histogram / np.unique fast paths and the leaf reductions are *paths outside the proof*: bounded stand-in.
+np.histogram / np.unique fast paths, the sparse containers and the Average / Deviate / Bag leaves are *paths outside
+the proof*: bounded stand-in.  The leaf reductions of Sum, Minimize, Maximize and Count are proved (leaf_task).
 """
 
 import z3
@@ -29,14 +30,151 @@ from spec import fillspec  # noqa: E402
 CLASSES = ["Bin", "CentrallyBin", "IrregularlyBin", "Stack", "Fraction", "Select", "Label", "UntypedLabel", "Index", "Branch"]
 
 
+LEAVES = ["Sum", "Minimize", "Maximize", "Count"]
+
+
 def tasks_for(prop, tier):
     if prop != "C03":
         return []
-    return [("c03", K, wv) for K in CLASSES for wv in ("array", "scalar")]
+    return [("c03", K, wv) for K in CLASSES for wv in ("array", "scalar")] + [("c03", K, wv) for K in LEAVES for wv in ("array", "scalar")]
+
+
+def leaf_task(P, K, wv, prop, tier, out):
+    """Leaf reductions.  The real `_numpy` of Sum / Minimize / Maximize / Count is executed with boolean-mask
+    selections and reductions modelled as abstract, extensional aggregates of an element-wise specified array:
+      Sum       sum' = sum (+) SUM_i [w_i > 0] q_i * w_i        (Fl sum: nan / +-inf absorbing, order independent)
+      Minimize  min' = min over {q_i : w_i > 0, q_i not nan}, combined with the old value as fill() does
+      entries'  = entries + SUM_i w_i
+    i.e. the aggregate of exactly the per-row contributions of fill().  That a left fold of fill over the rows equals the
+    aggregate is the definition of the aggregate (commutative, associative: meta step T-ROWS as for the containers)."""
+    fi = P.lookup_method(K, "_numpy")
+    X = Exec(P, models.std_hooks())
+    st = State()
+    st.np_special_sums = True
+    selfv = schema.make_instance(st, K, 1)
+    batch = z3.Const("batch", core.Datum)
+    n = z3.Function("batchlen", core.Datum, z3.IntSort())(batch)
+    st.add(n >= 0)
+    if wv == "array":
+        wr = z3.Function("w_in", z3.IntSort(), z3.RealSort())
+        i = z3.Int("wi0")
+        st.forall(i, z3.And(i >= 0, i < n), wr(i) >= 0, name="weights-nonneg", base_only=True)
+        warg = npmodel.new_arr(st, n, lambda j: VFl(Fl.fin(wr(j)), "float"), "float")
+        st.new_oids.discard(warg.oid)
+        w_at = lambda j: Fl.fin(wr(j))
+    else:
+        ws = z3.Real("w_scalar")
+        st.add(ws >= 0)
+        warg = VFl(Fl.fin(ws))
+        w_at = lambda j: Fl.fin(ws)
+    # a leaf below a quantity-bearing parent: the parent fixed the batch length (a bare Count has no entry point)
+    shape = st.alloc(CList([core.VInt(n)] if K == "Count" else [NONE]), new=False)
+    pre = st.fork()
+    a = view_of(pre, selfv, K)
+    try:
+        res = X.run(st, fi, [selfv, VOpq(batch, "batch"), warg, shape])
+    except Unsupported as e:
+        out["out_of_reach"].append({"function": fi.qualname, "reason": f"[{wv}] {e}"})
+        return
+    add_function(out, fi, wv, paths=len(res))
+    e = fillspec.quantity_expr(pre, selfv)
+    from .builtins_model import uf_nan, uf_ninf, uf_pinf, uf_r
+
+    def q_at(j):
+        d_ = npmodel.rowof(batch, j)
+        return Fl(uf_nan(e, d_), uf_pinf(e, d_), uf_ninf(e, d_), uf_r(e, d_))
+
+    PINF, NINF, ZERO = Fl.const(float("inf")), Fl.const(float("-inf")), Fl.const(0.0)
+
+    def ext(s, W, spec_elem, name):
+        """the aggregates of W are those of the specified array: either every row agrees, or a differing row exists"""
+        Ws = s.fresh("W_spec_" + name, npmodel.WArr)
+        j = z3.Int(f"sp!{core.uid()}")
+        s.forall(j, z3.And(j >= 0, j < n), npmodel.wat(Ws, j).same(spec_elem(j)), name="spec-" + name, base_only=True)
+        wd = s.fresh("wit.rowdiff", z3.IntSort())
+        s.add_index(wd)
+        same_aggr = z3.And(
+            npmodel.asum(W) == npmodel.asum(Ws),
+            npmodel.aflag_nan(W) == npmodel.aflag_nan(Ws), npmodel.aflag_pinf(W) == npmodel.aflag_pinf(Ws), npmodel.aflag_ninf(W) == npmodel.aflag_ninf(Ws),
+            npmodel.fl_min(W).same(npmodel.fl_min(Ws)), npmodel.fl_max(W).same(npmodel.fl_max(Ws)),
+        )
+        s.add(z3.Or(same_aggr, z3.And(wd >= 0, wd < n, z3.Not(npmodel.wat(W, wd).same(npmodel.wat(Ws, wd))))))
+        return Ws
+
+    for pi, r in enumerate(res):
+        p = f"{wv}:p{pi}"
+        if r.exc is not None:
+            if r.exc.cls == "AssertionError":
+                continue  # malformed inputs (shape mismatch) are outside the contract
+            vc = smt.build_vc("c03", r.st.fork(), z3.BoolVal(False))
+            record(out, prop, fi.qualname, "ensures:no-raise", p + f":{r.exc.cls}@{r.exc.origin}", wv, vc, tier)
+            continue
+        s0 = r.st
+        same = True if wv != "array" else s0.heap.get(warg.oid) is pre.heap.get(warg.oid)
+        vc = smt.build_vc("c03", s0.fork(), z3.BoolVal(bool(same)))
+        record(out, prop, fi.qualname, "ensures:inputs-unchanged", p, wv, vc, tier)
+        reds = list(getattr(s0, "np_reductions", []))
+        b = view_of(s0, selfv, K)
+        # entries
+        s = s0.fork()
+        ent0, ent1 = a["entries"].fl, b["entries"].fl
+        Wsum = [W for kind, W in reds if kind == "sum"]
+        for W in Wsum:
+            ext(s, W, lambda j: w_at(j), "weights") if False else None
+        Win = s.fresh("W_spec_in", npmodel.WArr)
+        j = z3.Int("wj0")
+        s.forall(j, z3.And(j >= 0, j < n), npmodel.wat(Win, j).same(w_at(j)), name="spec-weights", base_only=True)
+        for t in sums_in(ent1.r):
+            wdiff = s.fresh("wit.sumdiff", z3.IntSort())
+            s.add_index(wdiff)
+            s.add(z3.Or(npmodel.asum(t) == npmodel.asum(Win), z3.And(wdiff >= 0, wdiff < n, z3.Not(npmodel.wat(t, wdiff).same(npmodel.wat(Win, wdiff))))))
+        goal = z3.And(ent1.isfin(), z3.Or(ent1.r == ent0.r + npmodel.asum(Win), ent1.r == ent0.r + w_at(0).r * z3.ToReal(n)) if wv == "scalar" else ent1.r == ent0.r + npmodel.asum(Win))
+        vc = smt.build_vc("c03", s, goal)
+        record(out, prop, fi.qualname, "ensures:entries", p, wv, vc, tier)
+        if K == "Count":
+            continue
+        s = s0.fork()
+        if K == "Sum":
+            cand = [W for kind, W in reds if kind == "sum"]
+            spec = lambda j: Fl.ite(w_at(j).r > 0, q_at(j).mul(w_at(j)), ZERO)
+            goals = []
+            for W in cand:
+                Ws = ext(s, W, spec, "contrib")
+                goals.append(b["sum"].fl.same(a["sum"].fl.add(npmodel.fl_sum(Ws))))
+            j2 = z3.Int("qj0")
+            s.forall(j2, z3.And(j2 >= 0, j2 < n), q_at(j2).wf(), name="q-wf", base_only=True)
+            vc = smt.build_vc("c03", s, z3.Or(goals) if goals else z3.BoolVal(False))
+            record(out, prop, fi.qualname, "ensures:sum-of-the-row-contributions", p, wv, vc, tier)
+        else:
+            fld, kind, neutral, agg = ("min", "min", PINF, npmodel.fl_min) if K == "Minimize" else ("max", "max", NINF, npmodel.fl_max)
+            cand = [W for k_, W in reds if k_ == kind]
+            selected = lambda j: z3.And(w_at(j).r > 0, z3.Not(q_at(j).nan))
+            spec = lambda j: Fl.ite(selected(j), q_at(j), neutral)
+            j2 = z3.Int("qj0")
+            s.forall(j2, z3.And(j2 >= 0, j2 < n), q_at(j2).wf(), name="q-wf", base_only=True)
+            j3 = z3.Int("qj1")
+            none = s.forall(j3, z3.And(j3 >= 0, j3 < n), z3.Not(selected(j3)), equiv=True, name="none-selected", base_only=True)
+            old, new = a[fld].fl, b[fld].fl
+            goals = []
+            if not cand:
+                goals.append(z3.And(none, new.same(old)))
+            for W in cand:
+                Ws = ext(s, W, spec, "selected")
+                m = agg(Ws)
+                better = m.lt(old) if K == "Minimize" else m.gt(old)
+                want = Fl.ite(old.nan, m, Fl.ite(better, m, old))
+                goals.append(z3.And(z3.Not(none), new.same(want)))
+            vc = smt.build_vc("c03", s, z3.Or(goals))
+            record(out, prop, fi.qualname, f"ensures:{fld}-of-the-selected-rows", p, wv, vc, tier)
+    out.setdefault("assumptions", []).append(
+        "C03 leaves: boolean-mask selection a[m] keeps the rows with m true; sum / min / max of an array are extensional aggregates of its elements (sum in the Fl algebra: a nan or both infinities give nan); min / max of the selected rows is below / above no selected element is not needed: the aggregate is compared with the aggregate of the specified array"
+    )
 
 
 def run_task(P, task, prop, tier, out):
     _, K, wv = task
+    if K in LEAVES:
+        return leaf_task(P, K, wv, prop, tier, out)
     fi = P.lookup_method(K, "_numpy")
     X = Exec(P, models.std_hooks())
     st = State()
